@@ -81,7 +81,7 @@ def graph_parts(g, payload="basic"):
     parts = []
     ctx = core.set_ctx(core.Ctx(None))
     attach.ACTIVE.clear()
-    scfg = drivers.make_scfg(g, payload)
+    scfg = drivers.make_scfg(g, payload, drivers.how_for(g))
     for st, name in (("J", "join_returns"), ("L", "restructure_loop"), ("B", "restructure_branch")):
         try:
             getattr(scfg, name)()
